@@ -127,7 +127,7 @@ def describe_sub(c, strings):
 
 def describe_mw(c, strings):
     return dict(kind='handler middleware' + (' in a Router with AddPrometheusRouterMetrics' if c['router'] else ' called directly'), times_applied=c['layers'],
-                invocations=[dict(outcome=['ok', 'error', 'panic'][m['out']], outputs=m['nouts'], publisher_accepts=m['pub_ok'],
+                invocations=[dict(outcome=['ok', 'error', 'panic'][m['out']], outputs=m['nouts'], returns_consumed_message=m.get('pass', False), publisher_accepts=m['pub_ok'],
                                   panic_value=['string', 'error', 'nil'][m['panicv']] if m['out'] == 2 else None) for m in c['msgs']],
                 handler_execution_time_seconds=[[strings[r[0]]] + r[1:] for r in c['htab']],
                 subscriber_messages_received_total=[[strings[r[0]], strings[r[1]]] + r[2:] for r in c['stab']],
@@ -182,11 +182,13 @@ def one_round(res, pid, seed, n, rnd):
                     if k['before'] and k['before'][0]['mark']: res.count('pub first object already counted')
                 for d in first_decisions(c): res.count('delay decision=' + d)
                 if c['concurrent']: res.count('pub concurrent cases')
+                res.count('pub objects received through a metrics subscriber before', c['pre_received'])
                 if any(k['res'] is not None for k in c['calls']) or len(c['stack']) >= 1:
                     res.nontrivial.add(('pub', shape(c['stack']), tuple(len(k['batch']) for k in c['calls']), tuple(k['res'] for k in c['calls']),
                                         tuple(first_decisions(c)), c['concurrent']))
             else:
                 res.count('sub closes=%d' % c['closes'])
+                res.count('sub objects published through a metrics publisher before', c['pre_published'])
                 res.count('sub counted=%d' % sum(r[3] for r in c['tab']))
                 res.count('sub unsettled at end=%d' % len([x for x in c['final'] if x == 0]))
                 if c['stack']:
@@ -218,8 +220,8 @@ def one_round(res, pid, seed, n, rnd):
             continue
         good.append(c)
         res.count('mw %s layers=%d' % ('router' if c['router'] else 'direct', c['layers']))
-        for m in c['msgs']: res.count('mw outcome=%s' % ['ok', 'error', 'panic'][m['out']] + ('+outputs' if m['nouts'] else '') + ('' if m['pub_ok'] or not m['nouts'] else '+publish-fails'))
-        res.nontrivial.add(('mw', c['router'], c['layers'], tuple((m['out'], m['nouts'], m['pub_ok']) for m in c['msgs'])))
+        for m in c['msgs']: res.count('mw outcome=%s' % ['ok', 'error', 'panic'][m['out']] + ('+outputs' if m['nouts'] else '') + ('(the consumed message itself)' if m.get('pass') else '') + ('' if m['pub_ok'] or not m['nouts'] else '+publish-fails'))
+        res.nontrivial.add(('mw', c['router'], c['layers'], tuple((m['out'], m['nouts'], m['pub_ok'], m.get('pass')) for m in c['msgs'])))
     if good:
         r = C.coq_eval(pid, 'cases_mw_%d' % rnd, HEADER + 'Definition cases : list mw_case := %s.\n' % L([mw_case(c) for c in good]),
                        [('R_mis', 'c20_mw_mismatches true cases'), ('R_pin', 'c20_mw_mismatches false cases'), ('R_vio', 'c20_mw_violations cases')])
